@@ -133,3 +133,97 @@ func vh_http_dispatch() {
 		vreach("none")
 	}
 }
+
+// ---------- C20: the bundled client's request text, as the bundled server parses it ----------
+// Client side: the real Request.init / SetMethod / SetHeaders / SetData / Request.send build
+// the text; server side: the real Connection read + Request.parse. (The TCP connection in
+// between is the byte-stream model; Client.Push itself is bound to the concrete TCP client.)
+func vh_http_client_request() {
+	c := &Client{req: newRequest()}
+	path := "/" + vhToken("path", vnChoice("pathlen", 3))
+	c.req.init(path, "10.0.2.15", 8080)
+	mi := vnChoice("method", 3)
+	method := "GET"
+	switch mi {
+	case 1:
+		method = "POST"
+		c.SetMethod(method)
+	case 2:
+		method = vhToken("othermethod", 3)
+		c.SetMethod(method)
+	}
+	hk := vhToken("hkey", 1+vnChoice("hklen", 2))
+	hv := vnString("hval", 1+vnChoice("hvlen", 3))
+	for i := 0; i < len(hv); i++ {
+		vassume(hv[i] >= 0x20 && hv[i] < 0x7f)
+	}
+	vassume(hv[0] != ' ')
+	hasHeader := vnBool("hasheader")
+	if hasHeader {
+		c.SetHeaders(map[string]string{hk: hv})
+	}
+	body := vnString("body", vnChoice("bodylen", 5))
+	c.SetData(body)
+	raw := c.req.send()
+
+	s := &VHSock{In: []byte(raw)}
+	con := VHConn(s)
+	v, _ := con.socket.Read()
+	con.recv_buf = string(v)
+	con.request.parse(con)
+	r := con.request
+	vassert(r.GetMethod() == method, "the server sees the method the client set (GET by default)")
+	vassert(r.uri == path, "the server sees the path of the client's URL")
+	vassert(r.version == HTTP_VERSION_11, "the request line carries a version the server accepts")
+	vassert(r.GetHeader("Host") == "10.0.2.15:8080" && r.GetHeader("User-Agent") == "net-protocol/5.0" && r.GetHeader("Accept") == "*/*", "the client's standard headers arrive")
+	if hasHeader {
+		vassert(r.GetHeader(hk) == hv && r.headers.len == 4, "a header set by the application arrives with its value")
+		vreach("header")
+	} else {
+		vassert(r.headers.len == 3, "no header is invented")
+	}
+	vassert(r.GetBody() == body, "the server sees exactly the body the client set")
+	if mi == 0 {
+		vassert(r.method == HTTP_METHOD_GET && con.status_code == 200, "a default request is accepted")
+	}
+	vreach("parsed")
+}
+
+// ---------- C20: the handler's status and body, as the bundled client receives them ----------
+// Server side: the real Connection.handler (read, parse, dispatch, Response.send ->
+// build_and_send_response); client side: what Client.Push does with the bytes it read
+// (recv_buf, Request.parse) and what GetResult returns (GetBody).
+func vh_http_response_roundtrip() {
+	defaultMux = ServeMux{}
+	body := vnString("body", 1+vnChoice("bodylen", 4))
+	calls := 0
+	var srv Server
+	srv.HandleFunc("/a", func(q *Request, p *Response) { calls++; p.End(body) })
+	registered := vnBool("registered")
+	reqPath := "/a"
+	if !registered {
+		reqPath = "/b"
+	}
+	s := &VHSock{In: []byte("GET " + reqPath + " HTTP/1.1\r\nHost: h\r\n\r\n")}
+	con := VHConn(s)
+	con.handler()
+	vassert(len(s.Out) > 0, "a response is written")
+
+	ccon := VHConn(&VHSock{})
+	ccon.recv_buf = string(s.Out)
+	ccon.request.parse(ccon)
+	cl := &Client{con: ccon}
+	got := cl.GetRequest()
+	vassert(got.method_raw == "HTTP/1.1", "the status line starts with the protocol version")
+	if registered {
+		vassert(calls == 1, "the handler runs once")
+		vassert(got.uri == "200", "the client receives the status the handler produced")
+		vassert(got.GetBody() == body, "the client receives exactly the body the handler produced")
+		vassert(got.GetHeader("Connection") == "close", "response headers are delimited from the body")
+		vreach("ok")
+	} else {
+		vassert(calls == 0, "a path nobody registered never invokes a handler")
+		vassert(got.GetBody() != "" , "the client still receives a response body")
+		vreach("unregistered")
+	}
+}
